@@ -19,6 +19,7 @@ import PlatypusModel.Model.Codec
 import PlatypusModel.Model.Problems
 import PlatypusModel.Model.Directions
 import PlatypusModel.Model.WFG
+import PlatypusModel.Model.UFRot
 import PlatypusModel.Model.UF
 import PlatypusModel.Model.CF
 open Wire Platypus
@@ -577,6 +578,10 @@ def opsProblems (op : String) : Option (P String) :=
       pure ("o " ++ showFs (match i with
         | 1 => cf1 trigF o x | 2 => cf2 trigF o x | 3 => cf3 trigF x | 4 => cf4 trigF o x | 5 => cf5 trigF o x
         | 6 => cf6 trigF o x | 7 => cf7 trigF o x | 8 => cf8 trigF o x | 9 => cf9 trigF o x | _ => cf10 trigF o x))
+  | "ufrot" => some do
+      -- UF11 / UF12: rotation tables are data supplied by the caller
+      let d3 ← bool; let m ← nat; let M ← list (list flt); let lam ← list flt; let x ← list flt
+      pure ("o " ++ showFs (ufRot trigF pySumF d3 M lam m x))
   | "dtlz" => some do
       let k ← nat; let m ← nat; let x ← list flt
       pure ("o " ++ showFs (match k with
